@@ -1,9 +1,27 @@
-use cosmwasm_std::{Addr, Decimal, Deps, Order, StdError, StdResult, Uint128};
+use cosmwasm_std::{
+    Addr, Decimal, Deps, Order, OverflowError, OverflowOperation, StdError, StdResult, Timestamp,
+    Uint128,
+};
 use cw_storage_plus::{Bound, Bounder, KeyDeserialize, Map};
 use sha2::{Digest, Sha256};
 use std::collections::HashSet;
 
 use crate::state::STATE;
+
+/// Seconds of `now + period`, refusing a deadline that a `Timestamp`
+/// (nanoseconds in a u64) cannot represent.
+pub fn checked_deadline(now: Timestamp, period: u64) -> StdResult<u64> {
+    now.seconds()
+        .checked_add(period)
+        .filter(|s| s.checked_mul(1_000_000_000).is_some())
+        .ok_or_else(|| {
+            StdError::overflow(OverflowError::new(
+                OverflowOperation::Add,
+                now.seconds(),
+                period,
+            ))
+        })
+}
 
 /// Validate the HRP (human readable part).of a bech32 encoded address
 /// as for [BIP-173](https://en.bitcoin.it/wiki/BIP_0173).
